@@ -177,6 +177,7 @@ struct ChunkResult {
     lines: Vec<WorkerLine>,
     hung_runs: Vec<u64>,
     crashed_run: Option<(u64, String)>,
+    harness_panics: Vec<String>,
 }
 
 /// kill the child when the parent dies (no orphans when a check is interrupted)
@@ -196,7 +197,7 @@ static HANGS: std::sync::atomic::AtomicUsize = std::sync::atomic::AtomicUsize::n
 /// Run [from, to) in worker processes. A run that makes no progress for `stall` is killed and
 /// recorded as hung (watchdog); the chunk then continues after it in a new process.
 fn run_chunk(e: &dyn Engine, seed: u64, from: u64, to: u64, tier: Tier) -> ChunkResult {
-    let mut res = ChunkResult { lines: Vec::new(), hung_runs: Vec::new(), crashed_run: None };
+    let mut res = ChunkResult { lines: Vec::new(), hung_runs: Vec::new(), crashed_run: None, harness_panics: Vec::new() };
     let mut cur = from;
     while cur < to {
         if ABORT.load(std::sync::atomic::Ordering::Relaxed) {
@@ -276,7 +277,17 @@ fn run_chunk(e: &dyn Engine, seed: u64, from: u64, to: u64, tier: Tier) -> Chunk
             continue;
         }
         if cur + done_here < to {
+            // exit code 101 = a Rust panic that unwound out of the harness itself (code under test runs
+            // under catch_unwind): a harness error, never a finding. Death by signal (abort, stack
+            // overflow) is what T1:abort is for.
+            let harness_panic = status.as_ref().and_then(|s| s.code()) == Some(101);
             let code = status.map(|s| format!("{s}")).unwrap_or_default();
+            if harness_panic {
+                let at = last_started.unwrap_or(cur);
+                res.harness_panics.push(format!("worker panicked outside the code under test at run {at}: {}", err.chars().take(600).collect::<String>()));
+                cur = at + 1;
+                continue;
+            }
             let at = last_started.unwrap_or(cur);
             if res.crashed_run.is_none() {
                 res.crashed_run = Some((at, format!("worker ended early ({code}): {err}")));
@@ -513,6 +524,9 @@ pub fn check_main(e: &dyn Engine, tier: Tier, seed: u64, workers: usize, runs_ov
                 }
                 _ => harness_errors.push(format!("watchdog fired for run {run} but replay returned in time")),
             }
+        }
+        for h in &cr.harness_panics {
+            harness_errors.push(h.clone());
         }
         if let Some((run, msg)) = cr.crashed_run {
             // the worker died (abort / stack overflow / OOM): confirm on the single run
